@@ -30,7 +30,7 @@ ASSUMPTIONS = ['integer cycling, count limits Pn only',
                'manually triggered tasks are exempt (none in this workload)']
 MIN = {'c04.release_checks': 1000, 'c04.base_point_changes': 100,
        'c04.released_at_limit': 100, 'completable_runs_finished': 30}
-NCASES = {'quick': 300, 'thorough': 4000}
+NCASES = {'quick': 1000, 'thorough': 12000}
 
 
 def ncases(tier):
